@@ -47,7 +47,7 @@ META = {
     "rule": "case = one executed transition (or one actors' status, or one end-to-end verification); non-trivial = distinct "
             "(kind, decoded fields) of executed transitions",
     "assumptions": ["the k-th transition of an actor on a path is identified by (actor, times_considered) on both sides"],
-    "ready": False,
+    "ready": True,
 }
 
 IDS = "skipids 3 5 2 4 6\n"
